@@ -312,10 +312,12 @@ func (its *PushPullHandler) pullOperations() errors.OrdaError {
 }
 
 func (its *PushPullHandler) pushOperations() errors.OrdaError {
+	// also for a read-only client, which pushes nothing: the commit records currentCP.Sseq as the end
+	// of the log
+	its.currentCP.Sseq = its.datatypeDoc.Sseq.End
 	if its.isReadOnly {
 		return nil
 	}
-	its.currentCP.Sseq = its.datatypeDoc.Sseq.End
 	for _, op := range its.gotPushPullPack.Operations {
 		switch {
 		case its.currentCP.Cseq+1 == op.ID.GetSeq():
